@@ -197,6 +197,12 @@ fn translate_block(
                 }
             }?;
 
+            // Record forms ("dot" instructions) also compare their result
+            // with zero and place the outcome in CR0.
+            if semantics::details(&instruction)?.update_cr0 {
+                semantics::update_cr0(&mut instruction_graph, &instruction)?;
+            }
+
             match instruction_id {
                 capstone::ppc_insn::PPC_INS_B => {
                     let detail = semantics::details(&instruction)?;
